@@ -415,7 +415,23 @@ func (ex *Exec) binop(st *State, op token.Token, x, y T, xt types.Type, rt types
 // wrapUnsigned: unsigned arithmetic is modular; we do not model wrap-around, so
 // results of unsigned subtraction are abstracted unless non-negative.
 func (ex *Exec) wrapUnsigned(st *State, t T, rt types.Type) T {
+	// Integers are mathematical in this model. Under `option overflow` every +, -, * on a machine integer type
+	// carries the obligation that the mathematical result fits the type, so a wrap-around cannot go unnoticed.
+	if ex.overflow && t.sort == SInt && rt != nil {
+		if b, ok := rt.Underlying().(*types.Basic); ok && b.Info()&types.IsInteger != 0 && b.Kind() != types.UntypedInt {
+			lo, hi := intRange(b)
+			ex.safeObligeAlways(st, "overflow", And(Le(lo, t), Le(t, hi)))
+		}
+	}
 	return t
+}
+
+// safeObligeAlways is safeOblige for checks that have their own option (not gated by `option safety`).
+func (ex *Exec) safeObligeAlways(st *State, kind string, goal T) {
+	ex.nsafe[kind]++
+	name := fmt.Sprintf("safe:%s:%s:%d", ex.conName(), kind, ex.nsafe[kind])
+	ex.vc.oblige("safe", name, st.guard, goal, ex.pos(ex.curPos))
+	ex.vc.assume(st.guard, goal)
 }
 
 func (ex *Exec) eq(x, y T, t types.Type) T {
